@@ -181,8 +181,9 @@ func Domain(t reflect.Type, depth int) []reflect.Value {
 		}
 		return out
 	case T[NamedAny]():
-		y := 6
-		for _, v := range []any{5, nil, "s", (*int)(nil), &y, map[string]any{"k": 1}, []any{1}, Base{ID: 2}, &Base{ID: 3}} {
+		y, z := 6, 7
+		pz := &z
+		for _, v := range []any{5, nil, &pz, "s", (*int)(nil), &y, map[string]any{"k": 1}, []any{1}, Base{ID: 2}, &Base{ID: 3}} {
 			e := reflect.New(t).Elem()
 			if v != nil {
 				e.Set(reflect.ValueOf(v))
